@@ -5,6 +5,7 @@ import Karp.Model.FirstSuccess
 import Karp.Model.ReservedFallback
 import Karp.Model.PoolFilter
 import Karp.Model.Relax
+import Karp.Model.MinValuesFilter
 import Karp.Spec.WeightPrice
 import Karp.Spec.PoolPass
 
@@ -232,6 +233,7 @@ def parsePool (j : Json) : Except String PPool := do
          taints := ← (do strList ((fldOpt j "taints").getD (Json.arr #[]))),
          types := ← (← arrD j "types").mapM parsePType,
          softTaints := ← (do strList ((fldOpt j "soft_taints").getD (Json.arr #[]))),
+         minTypes := (← natO j "min_types").getD 0,
          conds := ← parseConds j }
 
 /-- the model's side of "which pools become templates": the filter closure of `Provisioner.NewScheduler`
@@ -269,8 +271,12 @@ def modelPool (pools : List PPool) (pod : PPod) : Option String :=
   let keyed := usablePools.map (fun p => ({ name := bytesOf p.name, weight := p.weight } : Pool))
   let ordered := orderByWeight keyed
   let poolOf (k : Pool) : Option PPool := usablePools.find? (fun p => bytesOf p.name == k.name)
+  -- instance types: the template exists (NewScheduler's own filter over the pool's catalog, no pod) and CanAdd's filter
+  -- leaves something, both relaxing minValues under BestEffort (`Model/MinValuesFilter`)
+  let offers (p : PPool) : Bool :=
+    Karp.MinValuesFilter.poolOffers p.relaxMin p.minTypes (optionsFor p []).length (optionsFor p [pod]).length
   let outs (strict : Bool) := ordered.map (fun k => match poolOf k with
-    | some p => if hosts p [pod] && (!strict || prefers p pod) then Outcome.ok else Outcome.fail
+    | some p => if poolUsable p && tolerates p pod && offers p && (!strict || prefers p pod) then Outcome.ok else Outcome.fail
     | none => Outcome.fail)
   let soft := ordered.map (fun k => match poolOf k with
     | some p => !p.softTaints.isEmpty
@@ -296,9 +302,14 @@ def claimAllowed (pools : List PPool) (pods : List PPod) (maxTypes : Int) (c : C
   | _, _ => some "model: claim names an unknown pod or pool"
 
 def pass (inp impl : Json) : Except String Resp := do
-  let pools ← (← arrF inp "pools").mapM parsePool
+  let bestEffort ← boolD inp "best_effort" false
+  let pools := (← (← arrF inp "pools").mapM parsePool).map (fun p => { p with relaxMin := bestEffort })
   let pods ← (← arrF inp "pods").mapM parsePod
   let maxTypes ← intF inp "max_types"
+  -- Strict: a NodeClaim cut to MaxInstanceTypes below its pool's minValues is dropped after scheduling (its pods are
+  -- not retried elsewhere in the pass): passes keep MaxInstanceTypes at or above every minValues
+  if !bestEffort && pools.any (fun p => decide (maxTypes < (p.minTypes : Int))) then
+    throw "Strict policy with MaxInstanceTypes below a NodePool's minValues is outside the model"
   if !noDuplicates (pools.map (·.name)) then throw "duplicate pool names are outside the model"
   if !pools.all (fun p => noDuplicates (p.types.map (·.name))) then throw "duplicate type names are outside the model"
   match fldOpt impl "runs" with
